@@ -82,8 +82,8 @@ func (w *World) verifyFunc(fn *ssa.Function, ct *Contract, mode Mode) (res *Func
 		return
 	}
 	st := &State{cells: map[*ssa.Alloc]*Cell{}, heap: map[string]Term{}, guard: TTrue}
-	st.alloc = e.declare("alloc0", SInt)
-	e.assume(app(SBool, ">", st.alloc, IntLit(maxGlobals)))
+	st.alloc = e.declare("alloc0", e.rs())
+	e.assume(And(e.ridLt(e.ridLit(maxGlobals), st.alloc), e.ridLt(st.alloc, e.ridLit(1<<40))))
 	fr := e.newFrame(fn, true)
 	e.top = fr
 	for _, p := range fn.Params {
@@ -92,7 +92,7 @@ func (w *World) verifyFunc(fn *ssa.Function, ct *Contract, mode Mode) (res *Func
 		if pv, ok := v.(PtrV); ok {
 			nilable := ct != nil && ct.Nilable[p.Name()]
 			if ct != nil && !nilable && !w.sweep {
-				e.assume(Not(Eq(pv.Rid, IntLit(0))))
+				e.assume(Not(Eq(pv.Rid, e.ridLit(0))))
 				pv.NonNil = true
 				v = pv
 			}
